@@ -249,3 +249,40 @@ PROPS['C05'] = dict(
     stages=[c05stage.stage, _race_stage],
 )
 PROPS['C06']['stages'] = [c05stage.stage]
+
+def _exports_stage(prop, tier, seed, workdir, env, root, build, repo, **kw):
+    """every exported function / method of the three packages (go/parser) must have a driver case"""
+    import subprocess, os
+    exe = os.path.join(workdir, 'exports')
+    p = subprocess.run(['go', 'build', '-o', exe, './cmd/exports'], cwd=os.path.join(root, 'harness'), env=env, stdout=subprocess.PIPE, stderr=subprocess.STDOUT, text=True)
+    if p.returncode != 0:
+        return {'notes': ['exports tool does not build: ' + p.stdout[-300:]]}
+    ex = set(subprocess.run([exe, '-repo', repo], stdout=subprocess.PIPE, text=True).stdout.split('\n')) - {''}
+    have = set(subprocess.run([os.path.join(build, 'sqdrive'), 'apinames'], stdout=subprocess.PIPE, text=True).stdout.split('\n')) - {''}
+    # option constructors and Positions accessors are exercised inside other cases
+    missing = sorted(e for e in ex if e not in have)
+    viol = []
+    if missing:
+        path = c05stage.write_replay(root, prop, 'obligation', {'property': prop, 'kind': 'broken-obligation',
+                'correspondence_problem': 'exported API without a driver case: ' + ', '.join(missing),
+                'explanation': 'the panic table no longer covers the exported API of the packages'})
+        viol.append((path, False, 'exported API without a driver case: ' + ', '.join(missing)[:200]))
+    return {'violations': viol, 'coverage': {'exported_api_entries': len(ex), 'exported_api_covered': len(ex) - len(missing)}}
+
+PROPS['C16'] = dict(
+    theorem='C16_ctor_int, C16_ctor_rat, C16_producer_total, C16_with_significant, C16_search_total, C16_views_total (Properties/C16.v)',
+    functional=True,
+    level_text='Theorems: the constructor models panic exactly for a negative numerator or non-positive denominator and decide it before the digit stream exists; on valid arguments the '
+               'digit computation (all the producer goroutine does) is total; WithSignificant panics iff its limit is negative; the search automaton and the view operations are total '
+               '(no index leaves its slice). The table of documented preconditions (ApiSpec.api_panics) is compared with the real behaviour of every exported function and method of the '
+               'three versions on the boundary grid {MinInt, -1, 0, 1, block multiples, MaxInt,...}, nil/empty/invalid slices and zero-value receivers, results consumed completely; '
+               'a panic in a background goroutine terminates the driver and is reported; the list of exports is read from the sources with go/parser and must be covered.',
+    level_note='Partial: exhaustive over the panic sites the models represent (explicit panics, slice indexing in KMP, division in the printer is guarded by digitsPerRow > 0 in the model). '
+               'Out of memory, stack exhaustion and panics inside math/big, fmt or bufio are outside. Nil interface/pointer arguments are outside the property\'s reading.',
+    rule='cases: every exported function/method (44 + 40 + 58) x 30 argument triples (400 thorough) from the grid {MinInt, MinInt+1, -1000, -2, -1, 0, 1, 2, 3, 5, 99, 100, 101, 1000, MaxInt-1, MaxInt} '
+         '(every grid value as first argument), receivers zero / finite / endless / view, slices from {nil, [], [1], ..., invalid digits}. Arguments that would materialise astronomically many '
+         'digits are clipped on endless receivers. Non-trivial: all (each names an API entry).',
+    modelled='math/big, fmt, bufio internals; os.Stdout replaced by the null device for Print/Write',
+    assumptions=[],
+    stages=[_exports_stage],
+)
